@@ -40,6 +40,16 @@ class MpStudyEngine(EngineBase):
         # warm up find_nearest (numba) before forking
         from TidalPy.utilities.numpy_helper.array_other import find_nearest
         find_nearest(np.linspace(0., 1., 3), 0.5)
+        from . import seams
+        self.seam_problems = seams.audit_source(self.M)
+
+    def unowned_seams(self):
+        """Reasons why the module under test cannot be simulated faithfully (see seams.py); empty on the shipped code."""
+        from . import seams
+        M = importlib.import_module(MODNAME)
+        fs = SimFS()
+        st = Stubs(M, fs, Kernel({}), 16, 10 ** 18, {})
+        return seams.audit_source(M) + st.problems
 
     def tier_config(self, tier):
         if tier == 'quick':
@@ -124,7 +134,14 @@ class MpStudyEngine(EngineBase):
             def main(_kw=kwargs):
                 return M.multiprocessing_run(study_dir, 'sim study', workload.study_fn, input_data, **_kw)
 
-            with Stubs(M, fs, kernel, plan.get('cpus', 16), 10 ** 18, stats):
+            stubs = Stubs(M, fs, kernel, plan.get('cpus', 16), 10 ** 18, stats)
+            unowned = getattr(self, 'seam_problems', []) + stubs.problems
+            if unowned:
+                harness_errors.append('no verdict - the module under test reaches the outside world through a seam the '
+                                      'simulator does not own: ' + '; '.join(unowned[:6]))
+                outcomes.append({'kind': 'harness'})
+                break
+            with stubs:
                 parent = kernel.run(main)
             fs.kernel = None
             workload.CURRENT = None
@@ -319,6 +336,11 @@ class MpStudyEngine(EngineBase):
     def pre_checks(self, tier, base_seed, workers):
         from . import fidelity, sweep
         from simkit.runner import run_jobs
+        unowned = self.unowned_seams()
+        if unowned:
+            return {'harness_errors': [], 'results': [], 'summary': {}, 'abort':
+                    'no verdict: the module under test reaches the outside world through a seam the simulator does not own '
+                    '(the simulated crash/restart history would be half real): ' + '; '.join(unowned[:8])}
         out = fidelity.run(self, base_seed, 3 if tier == 'quick' else 20, workers)
         plans, meta = sweep.sweep_plans(self, base_seed, 2 if tier == 'quick' else 24, double=(tier != 'quick'))
         res = run_jobs(self, [('plan', p) for p in plans], workers=workers, job_cap_s=120.0)
